@@ -321,7 +321,7 @@ impl<'a> ClientRequest<'a> {
                         self.request.query = query.to_string();
                     } else {
                         let new_url = Client::parse_url(l).ok_or("Invalid URL")?;
-                        let request = Request {
+                        let mut request = Request {
                             method: self.request.method,
                             uri: new_url.path,
                             headers: new_url.host_headers,
@@ -330,6 +330,13 @@ impl<'a> ClientRequest<'a> {
                             content: self.request.content,
                             address: Address::new(new_url.host).unwrap(),
                         };
+
+                        // The body is sent again, so it needs its length again
+                        if let Some(content) = &request.content {
+                            request
+                                .headers
+                                .add(HeaderType::ContentLength, content.len().to_string());
+                        }
 
                         self.protocol = new_url.protocol;
                         self.address = new_url.host;
